@@ -32,7 +32,7 @@ pub fn frame_of(c: &Case) -> Vec<u8> {
         18 => {
             let me = enc::me_ident(4, 1, &[1, 2, 3, 4, 48, 49, 50, 32]);
             // PI of a valid TIS-B frame is the plain parity: unrelated to the address
-            enc::df18([0u8, 1, 2, 3, 5, 6][(c.payload[0] % 6) as usize], c.addr, &me)
+            enc::df18(c.payload[0] % 8, c.addr, &me)
         }
         df => enc::df_any(df, &c.payload, c.addr),
     }
